@@ -53,7 +53,7 @@ static void judge(const World &w, Avoid::Router *live, const vector<Avoid::ConnR
         const Avoid::PolyLine &ri = ortho ? lc[k]->route() : lc[k]->displayRoute(), &rf = ortho ? fc[k]->route() : fc[k]->displayRoute(), &di = lc[k]->displayRoute();
         string obs = "incremental " + route_str(di) + " fresh " + route_str(fc[k]->displayRoute());
         // (i) validity in the final scene
-        bool invalid = false, throughVertex = false;
+        bool invalid = false, throughVertex = false, chordNewer = false;
         if (di.size() < 2 || di.ps[0].x != w.conns[k].x0 * S || di.ps[0].y != w.conns[k].y0 * S || di.ps[di.size() - 1].x != w.conns[k].x1 * S || di.ps[di.size() - 1].y != w.conns[k].y1 * S) ctx.violation("endpoints_wrong", {}, desc, obs);
         for (size_t q = 1; q < di.size(); q++) for (auto &s : w.shapes) if (s.alive) {
             Poly p = rect(s.x0 * S, s.y0 * S, s.x1 * S, s.y1 * S);
@@ -70,7 +70,12 @@ static void judge(const World &w, Avoid::Router *live, const vector<Avoid::ConnR
                       if (cr == 0 && dt > 0 && dt < L && onCutBoundary) throughVertex = true;
                       //  (c) a vertex of a shape that the history added or moved lies strictly inside the segment (the segment runs along / through
                       //      corners of the edited shape; its visibility was re-tested by the incremental code path)
-                      if (cr == 0 && dt > 0 && dt < L && o.touched) throughVertex = true; } } }
+                      if (cr == 0 && dt > 0 && dt < L && o.touched) throughVertex = true; } }
+                  // class chord_from_newer_vertex (same definition as in the C03 harness): an end of the segment lies on the cut shape's boundary and is a
+                  // vertex of a shape created after the cut shape (later in creation order, or added/moved by the history)
+                  auto onBd = [&](double x, double y) { return x >= s.x0 * S && x <= s.x1 * S && y >= s.y0 * S && y <= s.y1 * S && (x == s.x0 * S || x == s.x1 * S || y == s.y0 * S || y == s.y1 * S); };
+                  bool aOn = onBd(ax, ay), bOn = onBd(bx, by);
+                  for (auto &o : w.shapes) if (o.alive && &o != &s && (o.touched || &o > &s)) { Poly po = rect(o.x0 * S, o.y0 * S, o.x1 * S, o.y1 * S); for (auto &v : po.v) if ((aOn && v.x == ax && v.y == ay) || (bOn && v.x == bx && v.y == by)) chordNewer = true; } }
             }
         }
         // is the fresh route itself valid?  (if not, a free path may not exist and nothing is demanded)
@@ -82,7 +87,7 @@ static void judge(const World &w, Avoid::Router *live, const vector<Avoid::ConnR
         if (!ortho) { vector<Poly> sc; for (auto &sh : w.shapes) if (sh.alive) sc.push_back(rect(sh.x0, sh.y0, sh.x1, sh.y1)); VisGraph vg(sc, P{w.conns[k].x0, w.conns[k].y0}, P{w.conns[k].x1, w.conns[k].y1}); pathExists = vg.reachable(); if (freshInvalid && pathExists) ctx.count("fresh_route_invalid_although_path_exists"); }
         if (!pathExists) { ctx.count("no_free_path"); continue; }
         if (freshInvalid && !invalid) { ctx.count("fresh_invalid_incremental_valid"); continue; }
-        if (invalid) { vector<string> kc; if (throughVertex && !ortho) kc.push_back("through_vertex"); ctx.violation("route_invalid_after_history", kc, desc, obs); continue; }
+        if (invalid) { vector<string> kc; if (throughVertex && !ortho) kc.push_back("through_vertex"); if (chordNewer && !ortho) kc.push_back("chord_from_newer_vertex"); ctx.violation("route_invalid_after_history", kc, desc, obs); continue; }
         // (ii) cost no more than from scratch
         double ci = cost(ri, ortho), cf = cost(rf, ortho);
         if (ci > cf + 1e-6) ctx.violation("costlier_than_fresh", {}, desc, mcx::fmt("incremental cost %.9g fresh %.9g; ", ci, cf) + obs);
